@@ -47,19 +47,20 @@ type FoundViolation struct {
 }
 
 type WorkerReport struct {
-	Mode       string            `json:"mode"`
-	Tier       string            `json:"tier"`
-	Seed       uint64            `json:"seed"`
-	First      int               `json:"first"`
-	Requested  int               `json:"requested"`
-	Executed   int               `json:"executed"`
-	WallS      float64           `json:"wall_s"`
-	Race       bool              `json:"race_build"`
-	Stats      Stats             `json:"stats"`
-	Records    []RunRecord       `json:"records"`
-	Violations []FoundViolation  `json:"violations"`
-	Infra      []string          `json:"infra"`
-	Samples    []json.RawMessage `json:"samples"`
+	Mode            string            `json:"mode"`
+	Tier            string            `json:"tier"`
+	Seed            uint64            `json:"seed"`
+	First           int               `json:"first"`
+	Requested       int               `json:"requested"`
+	Executed        int               `json:"executed"`
+	WallS           float64           `json:"wall_s"`
+	Race            bool              `json:"race_build"`
+	Stats           Stats             `json:"stats"`
+	Records         []RunRecord       `json:"records"`
+	Violations      []FoundViolation  `json:"violations"`
+	ViolationCounts map[string]int    `json:"violation_counts,omitempty"`
+	Infra           []string          `json:"infra"`
+	Samples         []json.RawMessage `json:"samples"`
 }
 
 func genCase(mode string, seed uint64, run int, tier string) (*Case, error) {
@@ -227,6 +228,7 @@ func TestSim(t *testing.T) {
 		return
 	}
 
+	seenClass := map[string]bool{}
 	for i := 0; i < *fRuns; i++ {
 		if *fBudget > 0 && time.Since(start) > *fBudget {
 			break
@@ -252,7 +254,13 @@ func TestSim(t *testing.T) {
 		}
 		if len(v.Violations) > 0 {
 			file := ""
-			if *fCaseDir != "" {
+			fresh := false
+			for _, vi := range v.Violations {
+				if !seenClass[vi.Oracle+"/"+vi.Class] {
+					fresh = true
+				}
+			}
+			if fresh && *fCaseDir != "" {
 				_ = os.MkdirAll(*fCaseDir, 0o755)
 				file = filepath.Join(*fCaseDir, fmt.Sprintf("%s-%d-%d.json", c.Mode, c.Seed, run))
 				if err := saveJSON(file, c); err != nil {
@@ -260,9 +268,17 @@ func TestSim(t *testing.T) {
 				}
 			}
 			for _, vi := range v.Violations {
+				k := vi.Oracle + "/" + vi.Class
+				rep.ViolationCounts = addN(rep.ViolationCounts, k, 1)
+				if seenClass[k] {
+					continue // one case per distinct class and process; the rest is counted
+				}
+				seenClass[k] = true
 				rep.Violations = append(rep.Violations, FoundViolation{Run: run, Violation: vi, CaseFile: file})
 			}
-			break // ThreadSanitizer de-duplicates per process; the driver minimises in fresh processes
+			if raceEnabled || len(seenClass) >= 12 {
+				break // ThreadSanitizer de-duplicates per process; the driver minimises in fresh processes
+			}
 		}
 	}
 	finish()
